@@ -43,13 +43,14 @@ def main(tier):
         allrecs = recs + recs2
         if tier == "quick":
             allrecs = rng.sample(allrecs, min(len(allrecs), 120))
-        results = VS.replay_all(allrecs, scratch, "nve")
+        var = VS.variants(recs + recs2, rng, 40 if tier == "quick" else 400)
+        results = VS.replay_all(allrecs, scratch, "nve") + VS.replay_all(var, scratch, "nvevar")
         n_ok = 0
         samples = []
         for c, res, bad in results:
             if bad:
                 rep.violation("real_integrator_differs_from_exact_model", {"masses": c["m"], "field": c["g"], "x0": c["hist"][0]["x"], "v0": c["hist"][0]["v"], "mismatch": bad},
-                              what=bad[0].get("what"), field=any(c["g"]))
+                              what=bad[0].get("what"), field=any(c["g"]), variant=c.get("variant", "plain"))
             else:
                 n_ok += 1
                 if len(samples) < 2:
